@@ -30,6 +30,9 @@ type c05Type struct {
 	node   func() parquet.Node
 	vals   []parquet.Value
 	limits []int
+	// triples: pages of three distinct values in every order as well (kernels
+	// that compare the two halves of a 16-byte value separately)
+	triples bool
 }
 
 func c05Types() []c05Type {
@@ -74,30 +77,47 @@ func c05Types() []c05Type {
 	nan32 := math.Float32frombits(0x7fc00000)
 	nan64 := math.NaN()
 	return []c05Type{
-		{"int32", func() parquet.Node { return parquet.Int(32) }, i32(0, -1, 1, math.MinInt32, math.MaxInt32), nil},
-		{"int64", func() parquet.Node { return parquet.Int(64) }, i64(0, -1, 1, math.MinInt64, math.MaxInt64), nil},
-		{"uint32", func() parquet.Node { return parquet.Uint(32) }, i32(0, 1, -1, math.MinInt32, math.MaxInt32), nil},
-		{"uint64", func() parquet.Node { return parquet.Uint(64) }, i64(0, 1, -1, math.MinInt64, math.MaxInt64), nil},
-		{"int8", func() parquet.Node { return parquet.Int(8) }, i32(0, -1, 1, -128, 127), nil},
-		{"float", func() parquet.Node { return parquet.Leaf(parquet.FloatType) }, f32(0, float32(math.Copysign(0, -1)), 1.5, float32(math.Inf(-1)), float32(math.Inf(1)), nan32), nil},
-		{"double", func() parquet.Node { return parquet.Leaf(parquet.DoubleType) }, f64(0, math.Copysign(0, -1), -1.5, math.Inf(-1), math.Inf(1), nan64), nil},
-		{"boolean", func() parquet.Node { return parquet.Leaf(parquet.BooleanType) }, []parquet.Value{parquet.BooleanValue(false), parquet.BooleanValue(true)}, nil},
-		{"string", func() parquet.Node { return parquet.String() }, ba("", "a", "ab", "\xff\xff\xff", "\xff\xffz", "aa\xff\xff"), []int{0, 1, 2, 3}},
-		{"bytes", func() parquet.Node { return parquet.Leaf(parquet.ByteArrayType) }, ba("\x00", "\x00\x01", "\x7f\xff\xff", "\x80", "\xff", "\xff\x00"), []int{0, 1, 2}},
-		{"uuid", func() parquet.Node { return parquet.UUID() }, fl(16, "\x00", "\x00\x01", "\x7f", "\x80", "\xff\xff\xff\xff\xff\xff\xff\xff\xff\xff\xff\xff\xff\xff\xff\xff"), []int{0, 4}},
-		{"flba3", func() parquet.Node { return parquet.Leaf(parquet.FixedLenByteArrayType(3)) }, fl(3, "\x00", "\x00\x01", "\x7f\xff\xff", "\x80", "\xff\xff\xff"), []int{0, 1, 2}},
-		{"decimal32", func() parquet.Node { return parquet.Decimal(2, 9, parquet.Int32Type) }, i32(0, -1, 1, -999999999, 999999999), nil},
-		{"decimal64", func() parquet.Node { return parquet.Decimal(2, 18, parquet.Int64Type) }, i64(0, -1, 1, math.MinInt64, math.MaxInt64), nil},
-		{"decimalflba", func() parquet.Node { return parquet.Decimal(2, 9, parquet.FixedLenByteArrayType(4)) }, fl(4, "\x00\x00\x00\x00", "\xff\xff\xff\xff", "\x00\x00\x00\x01", "\x80\x00\x00\x00", "\x7f\xff\xff\xff"), nil},
-		{"date", func() parquet.Node { return parquet.Date() }, i32(0, -1, 1, math.MinInt32, math.MaxInt32), nil},
-		{"timestamp", func() parquet.Node { return parquet.Timestamp(parquet.Microsecond) }, i64(0, -1, 1, math.MinInt64, math.MaxInt64), nil},
-		{"int96", func() parquet.Node { return parquet.Leaf(parquet.Int96Type) }, []parquet.Value{parquet.Int96Value(deprecated.Int96{}), parquet.Int96Value(deprecated.Int96{1, 0, 0}), parquet.Int96Value(deprecated.Int96{0, 0, 0x80000000}), parquet.Int96Value(deprecated.Int96{0, 0, 1})}, nil},
+		{"int32", func() parquet.Node { return parquet.Int(32) }, i32(0, -1, 1, math.MinInt32, math.MaxInt32), nil, false},
+		{"int64", func() parquet.Node { return parquet.Int(64) }, i64(0, -1, 1, math.MinInt64, math.MaxInt64), nil, false},
+		{"uint32", func() parquet.Node { return parquet.Uint(32) }, i32(0, 1, -1, math.MinInt32, math.MaxInt32), nil, false},
+		{"uint64", func() parquet.Node { return parquet.Uint(64) }, i64(0, 1, -1, math.MinInt64, math.MaxInt64), nil, false},
+		{"int8", func() parquet.Node { return parquet.Int(8) }, i32(0, -1, 1, -128, 127), nil, false},
+		{"float", func() parquet.Node { return parquet.Leaf(parquet.FloatType) }, f32(0, float32(math.Copysign(0, -1)), 1.5, float32(math.Inf(-1)), float32(math.Inf(1)), nan32), nil, false},
+		{"double", func() parquet.Node { return parquet.Leaf(parquet.DoubleType) }, f64(0, math.Copysign(0, -1), -1.5, math.Inf(-1), math.Inf(1), nan64), nil, false},
+		{"boolean", func() parquet.Node { return parquet.Leaf(parquet.BooleanType) }, []parquet.Value{parquet.BooleanValue(false), parquet.BooleanValue(true)}, nil, false},
+		{"string", func() parquet.Node { return parquet.String() }, ba("", "a", "ab", "\xff\xff\xff", "\xff\xffz", "aa\xff\xff"), []int{0, 1, 2, 3}, false},
+		{"bytes", func() parquet.Node { return parquet.Leaf(parquet.ByteArrayType) }, ba("\x00", "\x00\x01", "\x7f\xff\xff", "\x80", "\xff", "\xff\x00"), []int{0, 1, 2}, false},
+		{"uuid", func() parquet.Node { return parquet.UUID() }, fl(16, "\x00", "\x00\x01", "\x7f", "\x80", "\xff\xff\xff\xff\xff\xff\xff\xff\xff\xff\xff\xff\xff\xff\xff\xff"), []int{0, 4}, false},
+		{"uuid-lowhalf", func() parquet.Node { return parquet.UUID() }, fl(16, "\x00\x00\x00\x00\x00\x00\x00\x00\x00\x00\x00\x00\x00\x00\x00\x05", "\x00\x00\x00\x00\x00\x00\x00\x00\x00\x00\x00\x00\x00\x00\x00\x09", "\x00\x00\x00\x00\x00\x00\x00\x00\x00\x00\x00\x00\x00\x00\x00\x07", "\x00\x00\x00\x00\x00\x00\x00\x01"), nil, true},
+		{"flba3", func() parquet.Node { return parquet.Leaf(parquet.FixedLenByteArrayType(3)) }, fl(3, "\x00", "\x00\x01", "\x7f\xff\xff", "\x80", "\xff\xff\xff"), []int{0, 1, 2}, false},
+		{"decimal32", func() parquet.Node { return parquet.Decimal(2, 9, parquet.Int32Type) }, i32(0, -1, 1, -999999999, 999999999), nil, false},
+		{"decimal64", func() parquet.Node { return parquet.Decimal(2, 18, parquet.Int64Type) }, i64(0, -1, 1, math.MinInt64, math.MaxInt64), nil, false},
+		{"decimalflba", func() parquet.Node { return parquet.Decimal(2, 9, parquet.FixedLenByteArrayType(4)) }, fl(4, "\x00\x00\x00\x00", "\xff\xff\xff\xff", "\x00\x00\x00\x01", "\x80\x00\x00\x00", "\x7f\xff\xff\xff"), nil, false},
+		{"date", func() parquet.Node { return parquet.Date() }, i32(0, -1, 1, math.MinInt32, math.MaxInt32), nil, false},
+		{"timestamp", func() parquet.Node { return parquet.Timestamp(parquet.Microsecond) }, i64(0, -1, 1, math.MinInt64, math.MaxInt64), nil, false},
+		{"int96", func() parquet.Node { return parquet.Leaf(parquet.Int96Type) }, []parquet.Value{parquet.Int96Value(deprecated.Int96{}), parquet.Int96Value(deprecated.Int96{1, 0, 0}), parquet.Int96Value(deprecated.Int96{0, 0, 0x80000000}), parquet.Int96Value(deprecated.Int96{0, 0, 1})}, nil, false},
 	}
 }
 
 // c05PageKinds returns the page kinds for an alphabet of n values:
 // kind 0 = null page, then {a}, then {a,b} (a before b in the page).
-func c05PageKinds(n int) [][]int {
+func c05PageKinds(n int, triples ...bool) [][]int {
+	k := c05PageKinds2(n)
+	if len(triples) > 0 && triples[0] {
+		for a := 0; a < n; a++ {
+			for b := 0; b < n; b++ {
+				for c := 0; c < n; c++ {
+					if a != b && b != c && a != c {
+						k = append(k, []int{a, b, c})
+					}
+				}
+			}
+		}
+	}
+	return k
+}
+
+func c05PageKinds2(n int) [][]int {
 	k := [][]int{nil}
 	for a := 0; a < n; a++ {
 		k = append(k, []int{a})
@@ -119,14 +139,31 @@ func c05Run(x *engine.X) {
 	root := x.Choose(len(types)*len(c05Reps), "type*rep")
 	t := types[root/len(c05Reps)]
 	rep := c05Reps[root%len(c05Reps)]
-	kinds := c05PageKinds(len(t.vals))
+	kinds := c05PageKinds(len(t.vals), t.triples)
 	maxPages := 2
 	if x.Tier == "thorough" {
 		maxPages = 3
 	}
 	var pages []int
 	streak := false
-	if x.Tier != "thorough" && x.Choose(2, "pagegen") == 1 {
+	gen := 0
+	if x.Tier != "thorough" {
+		gen = x.Choose(3, "pagegen")
+	}
+	if gen == 2 {
+		// every sequence of three single-value or null pages (boundary order
+		// needs three pages to go up and then down)
+		streak = true
+		n1 := len(t.vals) + 1
+		for i := 0; i < 3; i++ {
+			p := x.Choose(n1, "page3")
+			if rep == "required" && p == 0 {
+				p = 1
+			}
+			pages = append(pages, p)
+		}
+	}
+	if gen == 1 {
 		streak = true
 		// streaks: a page repeated twice (equal bounds) followed by one other
 		// page, over the null page and the single-value pages - the shape that
@@ -158,15 +195,19 @@ func c05Run(x *engine.X) {
 		return
 	}
 	cutAfter := -1
-	if len(pages) >= 2 {
+	if len(pages) >= 2 && gen != 2 {
 		cutAfter = x.Choose(len(pages), "rowgroupcut") - 1 // -1 = none, else cut after page i
 	}
 	limit := 0
-	if len(t.limits) > 0 {
+	if len(t.limits) > 0 && gen != 2 {
 		limit = t.limits[x.Choose(len(t.limits), "cilimit")]
 	}
 	pagev := 2 - x.Choose(2, "pagev")
-	statsOpt := x.Choose(3, "stats")
+	statsOpt := 0
+	if gen != 2 {
+		statsOpt = x.Choose(3, "stats")
+	}
+	dict := x.Choose(2, "dict") == 1
 
 	var sb strings.Builder
 	for i, k := range pages {
@@ -175,7 +216,7 @@ func c05Run(x *engine.X) {
 			sb.WriteString("|RG|")
 		}
 	}
-	x.Descf("type=%s rep=%s pages=%s limit=%d v%d stats=%d", t.name, rep, sb.String(), limit, pagev, statsOpt)
+	x.Descf("type=%s rep=%s pages=%s limit=%d v%d stats=%d dict=%v", t.name, rep, sb.String(), limit, pagev, statsOpt, dict)
 
 	node := t.node()
 	maxDef := 0
@@ -189,6 +230,9 @@ func c05Run(x *engine.X) {
 	}
 	schema := parquet.NewSchema("t", parquet.Group{"v": node})
 	opts := []parquet.WriterOption{schema, parquet.DataPageVersion(pagev)}
+	if dict {
+		opts = append(opts, parquet.DefaultEncoding(&parquet.RLEDictionary))
+	}
 	if limit > 0 {
 		opts = append(opts, parquet.ColumnIndexSizeLimit(func([]string) int { return limit }))
 	}
@@ -378,7 +422,7 @@ func init() {
 	Register(&engine.Prop{
 		ID:    "C05",
 		Level: "exploration",
-		Rule: "18 ordered column types (signed/unsigned ints, float/double with NaN/-0/+-Inf, strings and bytes with 0xFF prefixes, uuid, flba, decimals on int32/int64/flba, date, timestamp, int96, boolean) x {required, optional, repeated} x every sequence of <=2 (3 thorough) pages over the page kinds (quick also: every 3-page streak P,P,Q over the null and single-value pages) {all-null, {a}, {a,b}} x row-group cut position x ColumnIndexSizeLimit x page version x statistics options; " +
+		Rule: "19 ordered column types (16-byte values sharing their high half, in pages of up to three values; signed/unsigned ints, float/double with NaN/-0/+-Inf, strings and bytes with 0xFF prefixes, uuid, flba, decimals on int32/int64/flba, date, timestamp, int96, boolean) x {required, optional, repeated} x every sequence of <=2 (3 thorough) pages over the page kinds (quick also: every 3-page streak P,P,Q and every triple of null / single-value pages) x plain or dictionary encoding {all-null, {a}, {a,b}} x row-group cut position x ColumnIndexSizeLimit x page version x statistics options; " +
 			"non-trivial = >=2 pages",
 		Assumptions: []string{"bounds are judged by pqref from the raw bytes in the column's sort order with NaN ignored, and again through the library's ColumnIndex/Bounds/NullCount accessors"},
 		Bound:       func(string) int { return 0 },
